@@ -6,7 +6,8 @@
    values of the limits).  Admission theorems that speak about the counters carry [wf evs]: each peer
    object is delivered to Add at most once and a pid names one object - what the server can produce
    (AddPeer is called once per peer, from OnVersion; ids come from an atomic counter).  Persistent
-   peers are exempt from the per-host count by design of the code. *)
+   peers are exempt from the per-host count by design of the code.
+   The models mirror /repo after the fix: commits 7026b86 (connmgr) and 1a05aed (server). *)
 From Coq Require Import ZArith List.
 From BHS Require Import Peers PeersProofs ConnMgr ConnMgrProofs.
 Import ListNotations.
@@ -34,43 +35,46 @@ Theorem C18_group_count_exact : forall c evs g,
   wf evs -> cget (groups (run c init evs)) g = outbound_of_group (run c init evs) g.
 Proof. exact group_count_exact. Qed.
 
-(* counters return to zero when the corresponding peers have left *)
-Theorem C18_host_counter_returns_to_zero_partial : forall c evs h,
-  wf evs ->
-  (forall p, In p (added evs) -> host p = h -> pkind p <> Persistent -> left_after evs p) ->
+(* counters return to zero when the corresponding peers have left: every counted peer of the host
+   that was handed to Add has also been handed to Done - in WHICHEVER order the two were processed.
+   [proto]: a Done is only delivered for a peer object that is already disconnected (peerDoneHandler
+   waits for WaitForDisconnect).
+   History: before fix 1a05aed (handleAddPeerMsg ignores peers that are no longer connected) this held
+   only when the Done was processed after the Add; a Done processed first left the dead peer admitted
+   for good (the lemma C18_done_before_add_leaks of that time refuted the full statement). *)
+Theorem C18_host_counter_returns_to_zero : forall c evs h,
+  wf evs -> proto c init evs ->
+  (forall p, In p (added evs) -> host p = h -> pkind p <> Persistent -> In (Done p) evs) ->
   cget (ccount (run c init evs)) h = 0.
 Proof. exact host_counter_returns_to_zero. Qed.
 
-Theorem C18_group_counter_returns_to_zero_partial : forall c evs g,
-  wf evs ->
-  (forall p, In p (added evs) -> group p = g -> pkind p <> Inbound -> left_after evs p) ->
+Theorem C18_group_counter_returns_to_zero : forall c evs g,
+  wf evs -> proto c init evs ->
+  (forall p, In p (added evs) -> group p = g -> pkind p <> Inbound -> In (Done p) evs) ->
   cget (groups (run c init evs)) g = 0.
 Proof. exact group_counter_returns_to_zero. Qed.
 
-(* FULL STATEMENT WANTED (refuted): the same with `In (Done p) evs` in place of `left_after evs p`,
-   i.e. for either processing order of a peer's Add and Done.  peerHandler's select can process the
-   Done of a peer that disconnected right after its version message BEFORE its Add; the Add then
-   admits the already disconnected peer for good. *)
-Theorem C18_done_before_add_leaks_refuted :
-  ~ (forall c evs h, wf evs ->
-       (forall p, In p (added evs) -> host p = h -> pkind p <> Persistent -> In (Done p) evs) ->
-       cget (ccount (run c init evs)) h = 0).
-Proof. exact done_before_add_leaks_refuted. Qed.
+(* a peer object that has disconnected is ignored by Add: nothing changes *)
+Theorem C18_gone_peer_not_admitted : forall c s p now,
+  Peers.zmem (pid p) (gone s) = true -> step c s (Add p now) = (s, false).
+Proof. exact gone_peer_not_admitted. Qed.
 
 (* no peer from a banned host is admitted before the ban duration has elapsed: whatever came before
-   the ban and whatever happens between the ban and the attempt (clock not running backwards) *)
+   the ban and whatever happens between the ban and the attempt (clock not running backwards); the
+   admission bookkeeping is left untouched (the refused peer is disconnected) *)
 Theorem C18_banned_not_admitted_before_expiry : forall c evs1 evs2 h t0 p now,
   host p = h -> now < t0 + ban_dur c ->
   time_mono t0 (evs2 ++ [Add p now]) ->
   let s := run c init (evs1 ++ Ban h t0 :: evs2) in
-  step c s (Add p now) = (s, false).
+  snd (step c s (Add p now)) = false /\ books (fst (step c s (Add p now))) = books s.
 Proof. exact banned_not_admitted_before_expiry. Qed.
 
 (* ... while it is admitted again afterwards; and admission never wedges: with every ban of the host
    run out, fewer than max_per_ip counted peers of the host really admitted and fewer than max_peers
-   in total, a new peer IS admitted *)
+   in total, a new peer that is still connected IS admitted *)
 Theorem C18_admitted_after_expiry : forall c evs p now,
   wf (evs ++ [Add p now]) ->
+  (forall q, In (Disc q) evs -> pid q <> pid p) ->
   (forall t0, In (Ban (host p) t0) evs -> t0 + ban_dur c <= now) ->
   counted_of_host (run c init evs) (host p) < max_per_ip c ->
   total (run c init evs) < max_peers c ->
@@ -85,30 +89,44 @@ Theorem C18_conns_le_target : forall T mf evs,
   0 <= T -> ConnMgr.zlen (conns (crun (cinit T mf) evs)) <= T.
 Proof. exact conns_le_target. Qed.
 
-(* every slot is a connection, a request in flight, an armed retry timer, or was given up *)
+(* every slot is a connection, a request in flight, an armed retry timer, or a request that a caller
+   of the public Disconnect canceled while it was in flight.
+   History: before fix 7026b86 the sum also contained the number of address bans - at the 25th failure
+   of an address registerFailedConnectionTo banned it and returned without a successor request, and
+   C18_ban_loses_slot refuted "quiescent => target established". *)
 Theorem C18_slot_conservation : forall T mf evs,
   0 <= T ->
   let s := crun (cinit T mf) evs in
-  ConnMgr.zlen (conns s) + ConnMgr.zlen (tasks s) + timers s + bans s + canceled s = T.
+  ConnMgr.zlen (conns s) + ConnMgr.zlen (tasks s) + timers s + canceled s = T.
 Proof. exact slot_conservation. Qed.
 
-(* FULL STATEMENT WANTED (refuted below):
-     forall T mf evs, 0 <= T -> let s := crun (cinit T mf) evs in
-       quiescent s -> canceled s = 0 -> zlen (conns s) = T
-   i.e. "keeps asking for addresses and dialling until the target is established".
-   What holds is the statement restricted to histories in which no address reached the ban
-   threshold (bans s = 0): *)
-Theorem C18_quiescent_full_partial : forall T mf evs,
-  0 <= T ->
+(* on the server's alphabet (Disconnect only for ids learnt through OnConnection, never for a request
+   in flight) nothing is ever canceled *)
+Theorem C18_no_cancel : forall T mf evs,
+  server_alphabet (cinit T mf) evs -> canceled (crun (cinit T mf) evs) = 0.
+Proof. exact no_cancel. Qed.
+
+(* keeps asking for addresses and dialling until the target is established: when nothing is in
+   flight any more the target IS established ... *)
+Theorem C18_quiescent_full : forall T mf evs,
+  0 <= T -> server_alphabet (cinit T mf) evs ->
   let s := crun (cinit T mf) evs in
-  quiescent s -> bans s = 0 -> canceled s = 0 -> ConnMgr.zlen (conns s) = T.
+  quiescent s -> ConnMgr.zlen (conns s) = T.
 Proof. exact quiescent_full. Qed.
 
-Theorem C18_still_trying_partial : forall T mf evs,
+(* ... and below the target a request is in flight or a retry timer is armed *)
+Theorem C18_still_trying : forall T mf evs,
+  0 <= T -> server_alphabet (cinit T mf) evs ->
+  let s := crun (cinit T mf) evs in
+  ConnMgr.zlen (conns s) < T -> tasks s <> [] \/ 0 < timers s.
+Proof. exact still_trying. Qed.
+
+(* for arbitrary callers of Disconnect: exactly the canceled requests are missing *)
+Theorem C18_quiescent_full_any : forall T mf evs,
   0 <= T ->
   let s := crun (cinit T mf) evs in
-  ConnMgr.zlen (conns s) < T -> bans s = 0 -> canceled s = 0 -> tasks s <> [] \/ 0 < timers s.
-Proof. exact still_trying. Qed.
+  quiescent s -> ConnMgr.zlen (conns s) = T - canceled s.
+Proof. exact quiescent_full_any. Qed.
 
 (* a request in flight is never stuck: the event of its stage moves it on, up to a connection *)
 Theorem C18_request_progress : forall s id,
@@ -120,34 +138,15 @@ Theorem C18_request_progress : forall s id,
      conns (cstep s (DialOk id)) = conns s ++ [(id, a)]).
 Proof. exact request_progress. Qed.
 
-(* replaces an outbound connection that closes (below the failure threshold of its address) *)
-Theorem C18_replaces_closed_partial : forall T mf evs id a,
+(* replaces an outbound connection that closes - always (also when its address gets banned) *)
+Theorem C18_replaces_closed : forall T mf evs id a,
   0 <= T ->
   let s := crun (cinit T mf) evs in
   conn_addr (conns s) id = Some a ->
-  (fget (failed s) a + 1) mod 65536 < mf ->
   let s' := cstep s (Disconnect id) in
   ConnMgr.zlen (conns s') = ConnMgr.zlen (conns s) - 1 /\
-  tasks s' = tasks s ++ [(next s + 1, Created)] /\ bans s' = bans s.
+  tasks s' = tasks s ++ [(next s + 1, Created)].
 Proof. exact replaces_closed. Qed.
-
-(* the defect: at the threshold the closed connection is NOT replaced ... *)
-Theorem C18_closed_not_replaced_at_threshold : forall T mf evs id a,
-  0 <= T ->
-  let s := crun (cinit T mf) evs in
-  conn_addr (conns s) id = Some a ->
-  mf <= (fget (failed s) a + 1) mod 65536 ->
-  let s' := cstep s (Disconnect id) in
-  ConnMgr.zlen (conns s') = ConnMgr.zlen (conns s) - 1 /\ tasks s' = tasks s /\
-  timers s' = timers s /\ bans s' = bans s + 1.
-Proof. exact closed_not_replaced_at_threshold. Qed.
-
-(* ... and the full statement is false: target 2, 25 refusals of one address, then a good address:
-   quiescent with ONE connection (witness checked by vm_compute) *)
-Theorem C18_ban_loses_slot_refuted :
-  ~ (forall T mf evs, 0 <= T ->
-       let s := crun (cinit T mf) evs in quiescent s -> canceled s = 0 -> ConnMgr.zlen (conns s) = T).
-Proof. exact ban_loses_slot_refuted. Qed.
 
 (* the states visited by the correspondence check's script layer are states of this model *)
 Theorem C18_script_states_reachable : forall T mf sevs,
@@ -158,17 +157,17 @@ Print Assumptions C18_count_le_max.
 Print Assumptions C18_per_host_le_max.
 Print Assumptions C18_conn_count_exact.
 Print Assumptions C18_group_count_exact.
-Print Assumptions C18_host_counter_returns_to_zero_partial.
-Print Assumptions C18_group_counter_returns_to_zero_partial.
-Print Assumptions C18_done_before_add_leaks_refuted.
+Print Assumptions C18_host_counter_returns_to_zero.
+Print Assumptions C18_group_counter_returns_to_zero.
+Print Assumptions C18_gone_peer_not_admitted.
 Print Assumptions C18_banned_not_admitted_before_expiry.
 Print Assumptions C18_admitted_after_expiry.
 Print Assumptions C18_conns_le_target.
 Print Assumptions C18_slot_conservation.
-Print Assumptions C18_quiescent_full_partial.
-Print Assumptions C18_still_trying_partial.
+Print Assumptions C18_no_cancel.
+Print Assumptions C18_quiescent_full.
+Print Assumptions C18_still_trying.
+Print Assumptions C18_quiescent_full_any.
 Print Assumptions C18_request_progress.
-Print Assumptions C18_replaces_closed_partial.
-Print Assumptions C18_closed_not_replaced_at_threshold.
-Print Assumptions C18_ban_loses_slot_refuted.
+Print Assumptions C18_replaces_closed.
 Print Assumptions C18_script_states_reachable.
